@@ -73,7 +73,9 @@ class P(Prop):
         return out
 
     def rp_case(self, rnd, i):
-        code, reason = rnd.choice(STATUSES + [(999, "Nope"), (200, "ok"), (200, "Okay"), (-1, "X"), (404, "OK"), (200, "Not Found"), (99, "Continue"), (600, "X")])
+        code, reason = rnd.choice(STATUSES + [(999, "Nope"), (200, "ok"), (200, "Okay"), (-1, "X"), (404, "OK"), (200, "Not Found"), (99, "Continue"), (600, "X"),
+                                       # phrases that equal the registered one only after Unicode upper-casing (long s, dotless i), and look-alikes that do not
+                                       (102, "Proceſſing"), (303, "ſee other"), (404, "Not Found".replace("o", "ο")), (200, "ΟΚ"), (408, "Request Tımeout"), (226, "ım uſed")])
         v = rnd.choice(["HTTP/1.1"] * 4 + ["HTTP/1.0", "http/1.1", "HTTP/3", "HTTP/2.0"])
         eol = b"\r\n"
         head = ("%s %s %s" % (v, code, reason)).encode()
